@@ -337,7 +337,12 @@ def run_case(case: dict, env: core.Env) -> None:
                 (f"{ex}::INT = {k} OR {ex}::INT > {k}", None if v is None else v >= k),
                 (f"{ex}::INT IS NULL", v is None), (f"{ex}::INT IN ({k}, {k + 1})", None if v is None else v in (k, k + 1)),
                 (f"CASE WHEN {ex}::INT > {k} THEN 'y' ELSE 'n' END", "y" if gt else "n"),
+                (f"{ex}::INT BETWEEN {k} AND {k + 5}", None if v is None else k <= v <= k + 5),
+                (f"{ex}::INT NOT BETWEEN {k} AND {k + 5}", None if v is None else not (k <= v <= k + 5)),
             ]
+            if v is None or abs(v) < 2**31:
+                forms += [(f"{ex} BETWEEN {k} AND {k + 5}", None if v is None else k <= v <= k + 5),
+                          (f"{ex} > {k} AND {ex} < {k + 9}", None if v is None else k < v < k + 9)]
             env.count("cmp_boolean_context")
         for i, (expr, want) in enumerate(forms):
             ok, got, out = run(expr)
